@@ -207,30 +207,82 @@ func verifJSONUnmarshal(data []byte, v interface{}) error {
 	if verifapi.Bool("json.err") {
 		return verifErrJSON
 	}
+	// the destination may be the message struct or a pointer to it (json.Unmarshal(data, &p) with
+	// p *T): a JSON null then leaves p nil, any other document allocates the struct
+	null := false
+	switch v.(type) {
+	case **ProxyPollRequest, **ProxyPollResponse, **ProxyAnswerRequest, **ProxyAnswerResponse, **ClientPollRequest, **ClientPollResponse:
+		null = verifapi.Bool("json.null")
+		verifNullDoc = null
+	}
 	switch t := v.(type) {
 	case *ProxyPollRequest:
 		verifInPPReq = verifArbPPReq()
 		*t = verifInPPReq
+	case **ProxyPollRequest:
+		*t = nil
+		if !null {
+			verifInPPReq = verifArbPPReq()
+			x := verifInPPReq
+			*t = &x
+		}
 	case *ProxyPollResponse:
 		verifInPPRes = verifArbPPRes()
 		*t = verifInPPRes
+	case **ProxyPollResponse:
+		*t = nil
+		if !null {
+			verifInPPRes = verifArbPPRes()
+			x := verifInPPRes
+			*t = &x
+		}
 	case *ProxyAnswerRequest:
 		verifInPAReq = verifArbPAReq()
 		*t = verifInPAReq
+	case **ProxyAnswerRequest:
+		*t = nil
+		if !null {
+			verifInPAReq = verifArbPAReq()
+			x := verifInPAReq
+			*t = &x
+		}
 	case *ProxyAnswerResponse:
 		verifInPARes = verifArbPARes()
 		*t = verifInPARes
+	case **ProxyAnswerResponse:
+		*t = nil
+		if !null {
+			verifInPARes = verifArbPARes()
+			x := verifInPARes
+			*t = &x
+		}
 	case *ClientPollRequest:
 		verifInCReq = verifArbCReq()
 		*t = verifInCReq
+	case **ClientPollRequest:
+		*t = nil
+		if !null {
+			verifInCReq = verifArbCReq()
+			x := verifInCReq
+			*t = &x
+		}
 	case *ClientPollResponse:
 		verifInCRes = verifArbCRes()
 		*t = verifInCRes
+	case **ClientPollResponse:
+		*t = nil
+		if !null {
+			verifInCRes = verifArbCRes()
+			x := verifInCRes
+			*t = &x
+		}
 	default:
 		verifapi.Assert(false, "json.Unmarshal into an unexpected type")
 	}
 	return nil
 }
+
+var verifNullDoc bool
 
 // native realiser: the input bytes that make the real Unmarshal produce the drawn value
 func verifRealise(draw func() interface{}) (data []byte, jsonErr bool) {
@@ -239,6 +291,10 @@ func verifRealise(draw func() interface{}) (data []byte, jsonErr bool) {
 	}
 	if verifapi.Bool("json.err") {
 		return []byte("{not json"), true
+	}
+	if verifapi.Bool("json.null") { // only drawn by the executor when the destination is a pointer
+		verifNullDoc = true
+		return []byte("null"), false
 	}
 	b, _ := json.Marshal(draw())
 	return b, false
